@@ -555,8 +555,562 @@ static void elemBushing(Src& c) {
 
 // ================================================================================================ dispatch
 // CONTACT-BEGIN
-static bool runContact(const std::string& fn, Src& c, bool degenerate) { return false; }
-static bool runContactMode(const std::string& mode, long i, Src& c) { return false; }
+// ================================================================================================ compliant contact (C37)
+// Every contact record carries a *scene recipe* (enough to rebuild the scene in replay mode) followed by the
+// exported kinematics / contact data the model consumes.  Bodies are Free bodies on Ground (the tree is irrelevant
+// to a contact force: it reads X_GB and V_GB only).
+static bool wantC37() { return MODE.compare(0, 3, "c37") == 0 || MODE == "replay"; }
+
+struct Mat5 { double k, c, us, ud, uv; };
+static Mat5 drawMat(Src& c, bool friction = true) {
+    Mat5 m;
+    m.k = c.val(c.replay ? 0 : std::pow(10.0, c.rng->range(4, 7)));
+    m.c = c.val(c.replay ? 0 : (c.rng->below(5) == 0 ? 0.0 : c.rng->range(0.05, 1.0)));
+    double us = 0, ud = 0, uv = 0;
+    if (!c.replay && friction && c.rng->below(6) != 0) { ud = c.rng->range(0.05, 0.8); us = ud + c.rng->range(0, 0.5); uv = c.rng->below(3) ? 0.0 : c.rng->range(0, 0.3); }
+    m.us = c.val(us); m.ud = c.val(ud); m.uv = c.val(uv);
+    return m;
+}
+static void putMat(std::ostream& os, const Mat5& m) { os << ' ' << hex(m.k) << ' ' << hex(m.c) << ' ' << hex(m.us) << ' ' << hex(m.ud) << ' ' << hex(m.uv); }
+
+// the tangent-plane / friction-limit / sign predicates shared by all contact models.
+// n: unit normal pointing from body A towards body B's interior side such that a repulsive force on B is +N*n;
+// FB: force applied to B; vBA: velocity of B's contact point relative to A's;  mu: documented friction coefficient
+static void contactPredicates(const std::string& key, const Vec3& n, const Vec3& FB, const Vec3& vBA, double mu, bool smooth) {
+    double N = dot(FB, n);
+    Vec3 Ft = FB - N * n;
+    Vec3 vt = vBA - dot(vBA, n) * n;
+    double sc = std::max(1.0, FB.norm());
+    vh::P("normal_nonattractive", key + ".normal_nonattractive", -N, 1e-10 * sc);
+    vh::P("friction_opposes_slip", key + ".friction_opposes_slip", dot(Ft, vt), 1e-10 * sc * std::max(1.0, vt.norm()));
+    if (mu >= 0) vh::P("friction_le_limit", key + ".friction_le_limit", Ft.norm() - mu * std::abs(N), 1e-9 * sc);
+    // direction: friction is anti-parallel to the slip velocity (lies in the tangent plane by construction of Ft;
+    // the tangent-plane claim is that the force has no component outside span{n, vt})
+    Vec3 off = vt.norm() > 0 ? Ft - (dot(Ft, vt) / vt.normSqr()) * vt : Ft;
+    vh::P("friction_in_tangent_plane_along_slip", key + ".friction_direction", off.norm(), 1e-9 * sc);
+    (void)smooth;
+}
+static double hollarsMu(double us, double ud, double uv, double vslip, double vt) {
+    double vrel = vslip / vt;
+    return std::min(vrel, 1.0) * (ud + 2 * (us - ud) / (1 + vrel * vrel)) + uv * vslip;
+}
+static double combine(double a, double b) { return (a != 0 || b != 0) ? 2 * a * b / (a + b) : 0; }
+
+// ---------------------------------------------------------------- HuntCrossleyForce
+struct HCScene {
+    int nb; double vt; int hasHalf; Transform Xhalf; Mat5 mHalf;
+    std::vector<double> radius; std::vector<Vec3> centre; std::vector<Mat5> mat;     // per sphere (body i = sphere i)
+    std::vector<Transform> X; std::vector<SpatialVec> V;                            // per body 0..nb
+};
+struct HCRun {
+    std::unique_ptr<Rig> g; std::unique_ptr<GeneralContactSubsystem> contacts; std::unique_ptr<HuntCrossleyForce> hcp; ContactSetIndex set;
+    Contribution k; std::vector<std::string> contactTokens; int nc = 0; double predWorst = 0;
+};
+static void hcBuildAndRun(const HCScene& sc, HCRun& r, const std::vector<int>& awayMask, bool collect, bool dropHalf = false) {
+    r.g.reset(new Rig()); Rig& g = *r.g;
+    r.contacts.reset(new GeneralContactSubsystem(g.sys));
+    r.set = r.contacts->createContactSet();
+    r.hcp.reset(new HuntCrossleyForce(g.forces, *r.contacts, r.set));
+    HuntCrossleyForce& hc = *r.hcp;
+    hc.setTransitionVelocity(sc.vt);
+    vh::Rng local(99); g.freeBodies(local, sc.nb);
+    int surf = 0;
+    if (sc.hasHalf && !dropHalf) {
+        r.contacts->addBody(r.set, g.body[0], ContactGeometry::HalfSpace(), sc.Xhalf);
+        hc.setBodyParameters(ContactSurfaceIndex(surf++), sc.mHalf.k, sc.mHalf.c, sc.mHalf.us, sc.mHalf.ud, sc.mHalf.uv);
+    }
+    for (int i = 1; i <= sc.nb; ++i) {
+        r.contacts->addBody(r.set, g.body[i], ContactGeometry::Sphere(sc.radius[i]), Transform(sc.centre[i]));
+        const Mat5& m = sc.mat[i];
+        hc.setBodyParameters(ContactSurfaceIndex(surf++), m.k, m.c, m.us, m.ud, m.uv);
+    }
+    g.topo();
+    std::vector<Transform> X = sc.X;
+    // "far away" = far above the half space (along its outward normal), spread out sideways
+    Vec3 up = sc.hasHalf ? Vec3(-(sc.Xhalf.R() * Vec3(1, 0, 0))) : Vec3(0, 1, 0);
+    Vec3 side = sc.hasHalf ? Vec3(sc.Xhalf.R() * Vec3(0, 0, 1)) : Vec3(0, 0, 1);
+    for (int i = 1; i <= sc.nb; ++i) if (awayMask[i]) X[i] = Transform(X[i].R(), X[i].p() + (1000.0 * i) * up + (100.0 * i) * side);
+    g.fit(X, sc.V);
+    g.sys.realize(g.s, Stage::Dynamics);
+    r.k = contrib(g, hc, g.s);
+    if (!collect) return;
+    const Array_<Contact>& cs = r.contacts->getContacts(g.s, r.set);
+    r.nc = 0;
+    for (int i = 0; i < (int)cs.size(); ++i) {
+        if (!PointContact::isInstance(cs[i])) continue;
+        const PointContact& pc = static_cast<const PointContact&>(cs[i]);
+        int s1 = pc.getSurface1(), s2 = pc.getSurface2();
+        auto bodyOf = [&](int sidx) { return sc.hasHalf ? sidx : sidx + 1; };
+        auto matOf = [&](int sidx) -> const Mat5& { return sc.hasHalf ? (sidx == 0 ? sc.mHalf : sc.mat[sidx]) : sc.mat[sidx + 1]; };
+        std::ostringstream os;
+        os << ' ' << bodyOf(s1) << ' ' << bodyOf(s2); putMat(os, matOf(s1)); putMat(os, matOf(s2));
+        putVec(os, pc.getLocation()); putVec(os, pc.getNormal()); os << ' ' << hex(pc.getDepth()) << ' ' << hex(pc.getEffectiveRadiusOfCurvature());
+        r.contactTokens.push_back(os.str()); r.nc++;
+    }
+}
+static void elemHC(Src& c, int scenario) {
+    // scenario: 0 generic, 1 multi-contact with fast separating balls (F6), 2 no penetration
+    HCScene sc;
+    int nsceneIdx = 0; (void)nsceneIdx;
+    // ---- scene recipe (drawn or parsed)
+    std::ostringstream scene;
+    if (c.replay) c.next();                       // nscene token
+    sc.nb = c.ival(c.replay ? 0 : (scenario == 1 ? 2 + c.rng->below(3) : 1 + c.rng->below(4)));
+    sc.vt = c.val(c.replay ? 0 : (c.rng->coin() ? 0.01 : c.rng->range(0.005, 0.5)));
+    sc.hasHalf = c.ival(c.replay ? 0 : (scenario == 1 ? 1 : c.rng->below(4) != 0));
+    if (sc.hasHalf) {
+        Rotation R; Vec3 p;
+        if (c.replay) { sc.Xhalf = getPose(c); } else { sc.Xhalf = Transform(randRot(*c.rng), randVec(*c.rng, 1)); putPose(c.rec, sc.Xhalf); }
+        sc.mHalf = drawMat(c);
+    }
+    sc.radius.resize(sc.nb + 1); sc.centre.resize(sc.nb + 1); sc.mat.resize(sc.nb + 1);
+    for (int i = 1; i <= sc.nb; ++i) {
+        sc.radius[i] = c.real(0.2, 1.0); sc.centre[i] = c.vec(-0.3, 0.3); sc.mat[i] = drawMat(c);
+    }
+    sc.X.assign(sc.nb + 1, Transform()); sc.V.assign(sc.nb + 1, SpatialVec(Vec3(0), Vec3(0)));
+    std::vector<int> fast(sc.nb + 1, 0);
+    if (c.replay) { for (int b = 0; b <= sc.nb; ++b) { sc.X[b] = getPose(c); sc.V[b] = getVel(c); } }
+    else {
+        vh::Rng& r = *c.rng;
+        // place the spheres: on the half space (well separated along its surface) and/or in a chain touching each other
+        Vec3 nOut = sc.hasHalf ? Vec3(-(sc.Xhalf.R() * Vec3(1, 0, 0))) : Vec3(0, 1, 0);     // outward normal of the half space
+        Vec3 prevC(0); double prevR = 0;
+        for (int i = 1; i <= sc.nb; ++i) {
+            Rotation Rb = randRot(r);
+            double depth = (scenario == 2) ? -r.range(0.001, 0.2) : r.range(0.005, 0.15) * sc.radius[i];
+            Vec3 cG;
+            bool onHalf = sc.hasHalf && (scenario != 0 || i == 1 || r.coin());
+            if (!sc.hasHalf && scenario == 2 && i > 1) {      // straight line: no accidental overlaps
+                cG = prevC + (prevR + sc.radius[i] - depth) * Vec3(1, 0, 0); }
+            else if (onHalf) {
+                Vec3 t1 = sc.Xhalf.R() * Vec3(0, 1, 0), t2 = sc.Xhalf.R() * Vec3(0, 0, 1);
+                cG = sc.Xhalf.p() + (sc.radius[i] - depth) * nOut + (3.0 * i + r.range(-0.3, 0.3)) * t1 + r.range(-1, 1) * t2;
+            } else if (i == 1) cG = randVec(r, 1);
+            else { UnitVec3 dir(randVec(r, 1) + Vec3(0.01, 0.02, 0.03)); cG = prevC + (prevR + sc.radius[i] - depth) * Vec3(dir); }
+            prevC = cG; prevR = sc.radius[i];
+            sc.X[i] = Transform(Rb, cG - Rb * sc.centre[i]);
+            Vec3 w = randVec(r, 2), v = randVec(r, 0.5);
+            int kindV = r.below(4);             // 0 approaching, 1 slow, 2 sliding, 3 separating fast
+            if (scenario == 1) kindV = (r.below(2) == 0) ? 3 : 1;
+            if (kindV == 1) { w = randVec(r, 0.05); v = randVec(r, 0.01); }
+            if (kindV == 3) { v = r.range(5, 30) * nOut + randVec(r, 0.2); fast[i] = 1; }
+            if (kindV == 0) v = -r.range(0.1, 2) * nOut + randVec(r, 0.3);
+            sc.V[i] = SpatialVec(w, v);
+        }
+        if (scenario == 1 && !fast[1] && !fast[2]) { sc.V[1] = SpatialVec(Vec3(0), 20.0 * nOut); fast[1] = 1; }
+        for (int b = 0; b <= sc.nb; ++b) { putPose(c.rec, sc.X[b]); putVel(c.rec, sc.V[b]); }
+    }
+    HCRun run; std::vector<int> none(sc.nb + 1, 0);
+    hcBuildAndRun(sc, run, none, true);
+    Rig& g = *run.g;
+    // ---- record
+    if (c.replay) std::puts(gOrig.c_str());
+    else {
+        std::string sceneStr = c.rec.str();
+        int ntok = 0; { std::istringstream is(sceneStr); std::string t; while (is >> t) ++ntok; }
+        std::ostringstream os; os << "I hc " << ntok << sceneStr << ' ' << sc.nb << ' ' << hex(sc.vt);
+        for (int b = 0; b <= sc.nb; ++b) { putPose(os, g.body[b].getBodyTransform(g.s)); putVel(os, g.body[b].getBodyVelocity(g.s)); }
+        os << ' ' << run.nc; for (auto& t : run.contactTokens) os << t;
+        std::puts(os.str().c_str());
+    }
+    vh::Line L = vh::O("hc"); for (int b = 0; b <= sc.nb; ++b) outSpatial(L, run.k.F[b]); L.d(run.k.pe); L.emit();
+    vh::D(std::string("hc.contacts") + std::to_string(std::min(run.nc, 4)) + (scenario == 1 ? ".fast_separating" : scenario == 2 ? ".no_penetration" : ""));
+    if (wantC13()) thirdLaw("HuntCrossleyForce", g, g.s, run.k.F);
+    if (wantC12()) {
+        bool damp = false; for (int i = 1; i <= sc.nb; ++i) damp = damp || sc.mat[i].c != 0 || sc.mat[i].ud != 0 || sc.mat[i].us != 0 || sc.mat[i].uv != 0;
+        if (sc.hasHalf) damp = damp || sc.mHalf.c != 0;
+        double scl = 0; for (int b = 0; b <= sc.nb; ++b) scl += run.k.F[b][1].norm() * (sc.V[b][1].norm() + 1);
+        c12Lines("HuntCrossleyForce", g, *run.hcp, g.s, run.k, true, damp, false, scl);
+    }
+    if (!wantC37()) return;
+    // ---- C37 predicates on the implementation
+    if (scenario == 2) {
+        double tot = 0; for (int b = 0; b <= sc.nb; ++b) tot += run.k.F[b][0].norm() + run.k.F[b][1].norm();
+        vh::P("vanishes_without_penetration", "HuntCrossleyForce.no_penetration.force", tot, 0);
+        vh::P("vanishes_without_penetration", "HuntCrossleyForce.no_penetration.pe", std::abs(run.k.pe), 0);
+    }
+    // "sum over contacts": every contact contributes independently.  For each contact the implementation detected, the
+    // scene is rebuilt with only that contact's two partners present (all other spheres moved far away; the half space
+    // left out unless it is a partner); the full scene's body forces and potential energy must be the sum of these.
+    if (run.nc >= 1) {
+        const Array_<Contact>& cs = run.contacts->getContacts(g.s, run.set);
+        std::vector<SpatialVec> sum(sc.nb + 1, SpatialVec(Vec3(0), Vec3(0))); double peSum = 0;
+        for (int i = 0; i < (int)cs.size(); ++i) {
+            int s1 = cs[i].getSurface1(), s2 = cs[i].getSurface2();
+            int b1 = sc.hasHalf ? s1 : s1 + 1, b2 = sc.hasHalf ? s2 : s2 + 1;
+            std::vector<int> away(sc.nb + 1, 1); away[b1] = 0; away[b2] = 0;
+            HCRun alone; hcBuildAndRun(sc, alone, away, false, /*dropHalf=*/ b1 != 0 && b2 != 0);
+            for (int b = 0; b <= sc.nb; ++b) sum[b] += alone.k.F[b];
+            peSum += alone.k.pe;
+        }
+        double worst = 0, scale = 1;
+        for (int b = 0; b <= sc.nb; ++b) for (int k = 0; k < 2; ++k) {
+            worst = std::max(worst, maxabs(run.k.F[b][k] - sum[b][k])); scale = std::max(scale, maxabs(sum[b][k])); }
+        worst = std::max(worst, std::abs(run.k.pe - peSum)); scale = std::max(scale, std::abs(peSum));
+        vh::P("sum_over_contacts", "HuntCrossleyForce.multi_contact.early_return", worst, 1e-10 * scale);
+    }
+    // per-contact sign / friction predicates, evaluated on scenes with a single sphere-half-space contact
+    if (sc.hasHalf && sc.nb == 1 && run.nc == 1) {
+        const PointContact& pc = static_cast<const PointContact&>(run.contacts->getContacts(g.s, run.set)[0]);
+        Vec3 n = pc.getNormal();               // from surface1 to surface2
+        int s1 = pc.getSurface1();
+        int bB = (s1 == 0) ? 1 : 0, bA = (s1 == 0) ? 0 : 1;        // B = body of surface 2
+        Vec3 FB = run.k.F[bB][1];
+        // contact point as the implementation defines it
+        double k1 = std::pow((s1 == 0 ? sc.mHalf.k : sc.mat[1].k), 2. / 3.), k2 = std::pow((s1 == 0 ? sc.mat[1].k : sc.mHalf.k), 2. / 3.);
+        double s1f = k2 / (k1 + k2);
+        Vec3 loc = pc.getLocation() + (pc.getDepth() * (0.5 - s1f)) * n;
+        Vec3 vA = g.body[bA].findStationVelocityInGround(g.s, g.body[bA].findStationAtGroundPoint(g.s, loc));
+        Vec3 vB = g.body[bB].findStationVelocityInGround(g.s, g.body[bB].findStationAtGroundPoint(g.s, loc));
+        Vec3 vBA = vB - vA; Vec3 vt = vBA - dot(vBA, n) * n;
+        double us = combine(sc.mHalf.us, sc.mat[1].us), ud = combine(sc.mHalf.ud, sc.mat[1].ud), uv = combine(sc.mHalf.uv, sc.mat[1].uv);
+        contactPredicates("HuntCrossleyForce", n, FB, vBA, hollarsMu(us, ud, uv, vt.norm(), sc.vt), false);
+    }
+}
+
+// ---------------------------------------------------------------- SmoothSphereHalfSpaceForce
+static void elemSmooth(Src& c, int scenario) {
+    // scenario 0 generic, 1 zero dissipation, 2 fast separation
+    int bs = c.ival(c.replay ? 0 : 1), bh = c.ival(c.replay ? 0 : (c.rng->below(3) == 0 ? 2 : 0));
+    double st = c.val(c.replay ? 0 : std::pow(10.0, c.rng->range(5, 7)));
+    double di = c.val(c.replay ? 0 : (scenario == 1 ? 0.0 : c.rng->range(0.2, 3)));
+    double ud = c.replay ? 0 : c.rng->range(0.05, 0.8), us = c.replay ? 0 : ud + c.rng->range(0, 0.5);
+    us = c.val(us); ud = c.val(ud); double uv = c.val(c.replay ? 0 : c.rng->range(0, 0.3));
+    double vt = c.val(c.replay ? 0 : c.rng->range(0.01, 0.3));
+    double cf = c.val(1e-5), bd = c.val(300.0), bv = c.val(50.0);
+    double radius = c.real(0.1, 1.0);
+    Vec3 loc = c.vec(-0.3, 0.3);
+    Transform Xhs, Xs, Xh; SpatialVec Vs(Vec3(0), Vec3(0)), Vh(Vec3(0), Vec3(0));
+    if (c.replay) { Xhs = getPose(c); Xs = getPose(c); Vs = getVel(c); Xh = getPose(c); Vh = getVel(c); }
+    else {
+        vh::Rng& r = *c.rng;
+        Xhs = Transform(randRot(r), randVec(r, 0.5)); putPose(c.rec, Xhs);
+        if (bh) { Xh = Transform(randRot(r), randVec(r, 1)); Vh = SpatialVec(randVec(r, 1), randVec(r, 1)); }
+        Transform XGhs = Xh * Xhs;
+        Vec3 nIn = XGhs.R() * Vec3(1, 0, 0);         // into the half space
+        double indentation = (r.below(5) == 0) ? -r.range(0.001, 0.05) : r.range(0.001, 0.1) * radius;
+        Vec3 centre = XGhs.p() + (indentation - radius) * nIn + r.range(-1, 1) * (XGhs.R() * Vec3(0, 1, 0)) + r.range(-1, 1) * (XGhs.R() * Vec3(0, 0, 1));
+        Rotation Rb = randRot(r);
+        Xs = Transform(Rb, centre - Rb * loc);
+        Vec3 v = randVec(r, 1);
+        if (scenario == 2) v = -(2.0 / (3 * di) + r.range(0.002, 0.05)) * nIn + randVec(r, 0.05);
+        Vs = SpatialVec(scenario == 2 ? Vec3(0) : randVec(r, 2), v);
+        if (scenario == 2) Vh = SpatialVec(Vec3(0), Vec3(0));
+    }
+    std::unique_ptr<Rig> g(new Rig()); vh::Rng local(5); g->freeBodies(local, 2);
+    SmoothSphereHalfSpaceForce f(g->forces);
+    f.setParameters(st, di, us, ud, uv, vt, cf, bd, bv);
+    f.setContactSphereBody(g->body[bs]); f.setContactSphereLocationInBody(loc); f.setContactSphereRadius(radius);
+    f.setContactHalfSpaceBody(g->body[bh]); f.setContactHalfSpaceFrame(Xhs);
+    g->topo();
+    std::vector<Transform> X = {Transform(), Xs, bh ? Xh : Transform()}; std::vector<SpatialVec> V = {SpatialVec(Vec3(0), Vec3(0)), Vs, Vh};
+    g->fit(X, V);
+    g->sys.realize(g->s, Stage::Dynamics);
+    if (!c.replay) {
+        putPose(c.rec, g->body[bs].getBodyTransform(g->s)); putVel(c.rec, g->body[bs].getBodyVelocity(g->s));
+        putPose(c.rec, g->body[bh].getBodyTransform(g->s)); putVel(c.rec, g->body[bh].getBodyVelocity(g->s));
+    }
+    Contribution k = contrib(*g, f, g->s);
+    emitRecord("smooth", c, gOrig);
+    vh::Line L = vh::O("smooth"); outSpatial(L, k.F[bs]); outSpatial(L, k.F[bh]); L.d(k.pe); L.emit();
+    // geometry as the implementation defines it
+    Transform XGhs = g->body[bh].getBodyTransform(g->s) * Xhs;
+    Vec3 nIn = XGhs.R() * Vec3(1, 0, 0);
+    Vec3 centreG = g->body[bs].getBodyTransform(g->s) * loc;
+    double indentation = dot(centreG - XGhs.p(), nIn) + radius;
+    Vec3 cp = centreG + radius * nIn - 0.5 * indentation * nIn;
+    Vec3 vS = g->body[bs].findStationVelocityInGround(g->s, g->body[bs].findStationAtGroundPoint(g->s, cp));
+    Vec3 vH = g->body[bh].findStationVelocityInGround(g->s, g->body[bh].findStationAtGroundPoint(g->s, cp));
+    double vn = dot(vS - vH, nIn);
+    vh::D(std::string("smooth") + (indentation > 0 ? ".penetrating" : ".separated") + (scenario == 1 ? ".c0" : scenario == 2 ? ".fast_separation" : (vn > 0 ? ".approaching" : ".separating")));
+    if (wantC13()) thirdLaw("SmoothSphereHalfSpaceForce", *g, g->s, k.F);
+    if (!wantC37()) return;
+    // force on the sphere (B = sphere, A = half space, n = outward normal of the half space = -nIn)
+    Vec3 FB = k.F[bs][1]; Vec3 vBA = vS - vH; Vec3 vtv = vBA - dot(vBA, nIn) * nIn;
+    double vslip = std::sqrt(vtv.normSqr() + cf);
+    // regime of the documented tanh blending in which fhc_pos = fh_smooth(1+3/2 c v) is negative: v < -2/(3c)
+    bool fastSep = di > 0 && vn < -2.0 / (3 * di);
+    std::string key = std::string("SmoothSphereHalfSpaceForce") + (scenario == 1 ? ".zero_dissipation" : fastSep ? ".fast_separation" : "");
+    bool fin = finite3(FB) && finite3(k.F[bs][0]) && std::isfinite(k.pe);
+    vh::P("finite", key + ".finite", fin ? 0 : 1, 0);
+    contactPredicates(key, -nIn, FB, vBA, hollarsMu(us, ud, uv, vslip, vt), true);
+}
+
+// ---------------------------------------------------------------- ExponentialSpringForce (normal force)
+static void elemExp(Src& c) {
+    double d0 = c.val(c.replay ? 0 : c.rng->range(-0.01, 0.02)), d1 = c.val(c.replay ? 0 : c.rng->range(0.1, 2)), d2 = c.val(c.replay ? 0 : c.rng->range(200, 1500));
+    double cz = c.val(c.replay ? 0 : (c.rng->below(4) == 0 ? 0.0 : c.rng->range(0.1, 2)));
+    double maxF = c.val(c.replay ? 0 : (c.rng->below(4) == 0 ? c.rng->range(1, 50) : 1e5));
+    double muk = c.replay ? 0 : c.rng->range(0, 0.6), mus = c.replay ? 0 : muk + c.rng->range(0, 0.4);
+    mus = c.val(mus); muk = c.val(muk);
+    Vec3 station = c.vec(-0.3, 0.3);
+    Transform XP, X; SpatialVec V(Vec3(0), Vec3(0));
+    if (c.replay) { XP = getPose(c); X = getPose(c); V = getVel(c); }
+    else {
+        vh::Rng& r = *c.rng;
+        XP = Transform(randRot(r), randVec(r, 1)); putPose(c.rec, XP);
+        double pz = r.range(-0.01, 0.03);
+        Vec3 pG = XP * Vec3(r.range(-1, 1), r.range(-1, 1), pz);
+        Rotation Rb = randRot(r); X = Transform(Rb, pG - Rb * station);
+        V = SpatialVec(randVec(r, 1), randVec(r, 1) + (r.below(4) == 0 ? 5.0 : 0.0) * (XP.R() * Vec3(0, 0, 1)));
+    }
+    std::unique_ptr<Rig> g(new Rig()); vh::Rng local(6); g->freeBodies(local, 1);
+    ExponentialSpringParameters prm; prm.setShapeParameters(d0, d1, d2); prm.setNormalViscosity(cz); prm.setMaxNormalForce(maxF);
+    prm.setInitialMuStatic(mus); prm.setInitialMuKinetic(muk);
+    ExponentialSpringForce f(g->forces, XP, g->body[1], station, prm);
+    g->topo();
+    std::vector<Transform> XX = {Transform(), X}; std::vector<SpatialVec> VV = {SpatialVec(Vec3(0), Vec3(0)), V};
+    g->fit(XX, VV);
+    f.resetAnchorPoint(g->s);
+    g->sys.realize(g->s, Stage::Dynamics);
+    if (!c.replay) { putPose(c.rec, g->body[1].getBodyTransform(g->s)); putVel(c.rec, g->body[1].getBodyVelocity(g->s)); }
+    emitRecord("expn", c, gOrig);
+    double fzE = f.getNormalForceElasticPart(g->s, false)[2], fzD = f.getNormalForceDampingPart(g->s, false)[2], fz = f.getNormalForce(g->s, false)[2];
+    vh::O("expn").d(fzE).d(fzD).d(fz).emit();
+    vh::D(std::string("expn") + (fz == 0 ? ".clamped0" : fz == maxF ? ".clampedMax" : ""));
+    Contribution k = contrib(*g, f, g->s);
+    if (wantC13()) thirdLaw("ExponentialSpringForce", *g, g->s, k.F);
+    if (!wantC37()) return;
+    Vec3 nz = XP.R() * Vec3(0, 0, 1);
+    Vec3 FB = k.F[1][1];
+    Vec3 vB = g->body[1].findStationVelocityInGround(g->s, station);
+    // the body force is exactly normal + friction as reported
+    vh::P("force_is_normal_plus_friction", "ExponentialSpringForce.force_decomposition", (FB - f.getNormalForce(g->s) - f.getFrictionForce(g->s)).norm(), 1e-10 * std::max(1.0, FB.norm()));
+    vh::P("normal_le_max", "ExponentialSpringForce.normal_le_max", fz - maxF, 0);
+    contactPredicates("ExponentialSpringForce", nz, FB, vB, -1, true);
+    vh::P("friction_le_limit", "ExponentialSpringForce.friction_le_limit", f.getFrictionForce(g->s).norm() - f.getFrictionForceLimit(g->s), 1e-9 * std::max(1.0, FB.norm()));
+    vh::P("friction_limit_is_mu_fz", "ExponentialSpringForce.friction_limit", std::abs(f.getFrictionForceLimit(g->s) - f.getMu(g->s) * fz), 1e-10 * std::max(1.0, fz));
+}
+
+// ---------------------------------------------------------------- Hertz via CompliantContactSubsystem
+static void elemHertz(Src& c, int scenario) {
+    if (c.replay) c.next();
+    int nb = c.ival(c.replay ? 0 : 1 + c.rng->below(3));
+    double vt = c.val(c.replay ? 0 : (c.rng->coin() ? 0.01 : c.rng->range(0.005, 0.3)));
+    int hasHalf = c.ival(c.replay ? 0 : c.rng->below(4) != 0);
+    Transform Xhalf; Mat5 mHalf;
+    if (hasHalf) { if (c.replay) Xhalf = getPose(c); else { Xhalf = Transform(randRot(*c.rng), randVec(*c.rng, 1)); putPose(c.rec, Xhalf); } mHalf = drawMat(c); }
+    std::vector<double> radius(nb + 1); std::vector<Transform> XBS(nb + 1); std::vector<Mat5> mat(nb + 1);
+    for (int i = 1; i <= nb; ++i) {
+        radius[i] = c.real(0.2, 1.0);
+        if (c.replay) XBS[i] = getPose(c); else { XBS[i] = Transform(randRot(*c.rng), randVec(*c.rng, 0.3)); putPose(c.rec, XBS[i]); }
+        mat[i] = drawMat(c);
+    }
+    std::vector<Transform> X(nb + 1); std::vector<SpatialVec> V(nb + 1, SpatialVec(Vec3(0), Vec3(0)));
+    if (c.replay) for (int b = 0; b <= nb; ++b) { X[b] = getPose(c); V[b] = getVel(c); }
+    else {
+        vh::Rng& r = *c.rng;
+        Vec3 nOut = hasHalf ? Vec3(-(Xhalf.R() * Vec3(1, 0, 0))) : Vec3(0, 1, 0);
+        Vec3 prevC(0); double prevR = 0;
+        for (int i = 1; i <= nb; ++i) {
+            Rotation Rb = randRot(r);
+            double depth = (scenario == 2) ? -r.range(0.001, 0.2) : r.range(0.005, 0.15) * radius[i];
+            Vec3 cG; bool onHalf = hasHalf && (scenario != 0 || i == 1 || r.coin());
+            if (!hasHalf && scenario == 2 && i > 1) cG = prevC + (prevR + radius[i] - depth) * Vec3(1, 0, 0);
+            else if (onHalf) cG = Xhalf.p() + (radius[i] - depth) * nOut + (3.0 * i + r.range(-0.3, 0.3)) * (Xhalf.R() * Vec3(0, 1, 0)) + r.range(-1, 1) * (Xhalf.R() * Vec3(0, 0, 1));
+            else if (i == 1) cG = randVec(r, 1);
+            else { UnitVec3 dir(randVec(r, 1) + Vec3(0.01, 0.02, 0.03)); cG = prevC + (prevR + radius[i] - depth) * Vec3(dir); }
+            prevC = cG; prevR = radius[i];
+            X[i] = Transform(Rb, cG - Rb * XBS[i].p());
+            Vec3 w = randVec(r, 2), v = randVec(r, 0.5);
+            int kindV = r.below(4);
+            if (kindV == 1) { w = randVec(r, 0.02); v = randVec(r, 0.004); }
+            if (kindV == 3) v = r.range(5, 30) * nOut + randVec(r, 0.2);
+            if (kindV == 0) v = -r.range(0.1, 2) * nOut + randVec(r, 0.3);
+            V[i] = SpatialVec(w, v);
+        }
+        for (int b = 0; b <= nb; ++b) { putPose(c.rec, X[b]); putVel(c.rec, V[b]); }
+    }
+    std::unique_ptr<Rig> g(new Rig());
+    ContactTrackerSubsystem tracker(g->sys);
+    CompliantContactSubsystem compliant(g->sys, tracker);
+    compliant.setTransitionVelocity(vt);
+    vh::Rng local(8);
+    if (hasHalf) g->matter.Ground().updBody().addContactSurface(Xhalf, ContactSurface(ContactGeometry::HalfSpace(), ContactMaterial(mHalf.k, mHalf.c, mHalf.us, mHalf.ud, mHalf.uv)));
+    for (int i = 1; i <= nb; ++i) {
+        Body::Rigid b = Rig::randBody(local);
+        b.addContactSurface(XBS[i], ContactSurface(ContactGeometry::Sphere(radius[i]), ContactMaterial(mat[i].k, mat[i].c, mat[i].us, mat[i].ud, mat[i].uv)));
+        g->body.push_back(MobilizedBody::Free(g->matter.Ground(), Transform(), b, Transform())); g->kind.push_back(1);
+    }
+    g->topo(); g->fit(X, V);
+    g->sys.realize(g->s, Stage::Dynamics);
+    const ContactSnapshot& active = tracker.getActiveContacts(g->s);
+    std::ostringstream ct; int nc = 0;
+    struct CInfo { int b1, b2; Vec3 nG; Mat5 m1, m2; }; std::vector<CInfo> infos;
+    for (int i = 0; i < active.getNumContacts(); ++i) {
+        const Contact& con = active.getContact(i);
+        if (con.getCondition() == Contact::Broken) continue;
+        if (!CircularPointContact::isInstance(con)) continue;
+        const CircularPointContact& cc = CircularPointContact::getAs(con);
+        ContactSurfaceIndex s1 = con.getSurface1(), s2 = con.getSurface2();
+        int b1 = tracker.getMobilizedBody(s1).getMobilizedBodyIndex(), b2 = tracker.getMobilizedBody(s2).getMobilizedBodyIndex();
+        const ContactMaterial& m1 = tracker.getContactSurface(s1).getMaterial(); const ContactMaterial& m2 = tracker.getContactSurface(s2).getMaterial();
+        ct << ' ' << b1 << ' ' << b2; putPose(ct, tracker.getContactSurfaceTransform(s1)); putPose(ct, tracker.getContactSurfaceTransform(s2));
+        Mat5 a{m1.getStiffness(), m1.getDissipation(), m1.getStaticFriction(), m1.getDynamicFriction(), m1.getViscousFriction()};
+        Mat5 bm{m2.getStiffness(), m2.getDissipation(), m2.getStaticFriction(), m2.getDynamicFriction(), m2.getViscousFriction()};
+        putMat(ct, a); putMat(ct, bm);
+        putVec(ct, Vec3(cc.getNormal())); putVec(ct, cc.getOrigin()); ct << ' ' << hex(cc.getDepth()) << ' ' << hex(cc.getEffectiveRadius());
+        Transform X_GS1 = g->body[b1].getBodyTransform(g->s) * tracker.getContactSurfaceTransform(s1);
+        infos.push_back({b1, b2, X_GS1.R() * Vec3(cc.getNormal()), a, bm});
+        ++nc;
+    }
+    if (c.replay) std::puts(gOrig.c_str());
+    else {
+        std::string sceneStr = c.rec.str();
+        int ntok = 0; { std::istringstream is(sceneStr); std::string t; while (is >> t) ++ntok; }
+        std::ostringstream os; os << "I hertz " << ntok << sceneStr << ' ' << nb << ' ' << hex(vt) << ' ' << hex(SignificantReal);
+        for (int b = 0; b <= nb; ++b) { putPose(os, g->body[b].getBodyTransform(g->s)); putVel(os, g->body[b].getBodyVelocity(g->s)); }
+        os << ' ' << nc << ct.str();
+        std::puts(os.str().c_str());
+    }
+    const Vector_<SpatialVec>& F = g->sys.getRigidBodyForces(g->s, Stage::Dynamics);
+    vh::Line L = vh::O("hertz");
+    int nf = compliant.getNumContactForces(g->s);
+    for (int i = 0; i < nf; ++i) {
+        const ContactForce& cf = compliant.getContactForce(g->s, i);
+        L.v(cf.getContactPoint(), 3).v(cf.getForceOnSurface2()[1], 3).d(cf.getPotentialEnergy()).d(cf.getPowerDissipation());
+    }
+    for (int b = 0; b <= nb; ++b) outSpatial(L, F[b]);
+    L.d(g->sys.calcPotentialEnergy(g->s));         // the compliant subsystem is the only source of potential energy
+    L.emit();
+    vh::D(std::string("hertz.contacts") + std::to_string(std::min(nc, 4)) + (scenario == 2 ? ".no_penetration" : ""));
+    if (wantC13()) thirdLaw("CompliantContactSubsystem.Hertz", *g, g->s, F);
+    if (!wantC37()) return;
+    if (scenario == 2) vh::P("vanishes_without_penetration", "CompliantContactSubsystem.Hertz.no_penetration", (double)nf, 0);
+    // each reported contact force: pure force (no moment), sign / friction predicates with the documented Stribeck-like
+    // coefficient bounded by max(us,ud) + uv*vslip (the generator's friction curve never exceeds the static coefficient)
+    if (nf == nc) for (int i = 0; i < nf; ++i) {
+        const ContactForce& cf = compliant.getContactForce(g->s, i);
+        const CInfo& ci = infos[i];
+        Vec3 cp = cf.getContactPoint();
+        Vec3 vA = g->body[ci.b1].findStationVelocityInGround(g->s, g->body[ci.b1].findStationAtGroundPoint(g->s, cp));
+        Vec3 vB = g->body[ci.b2].findStationVelocityInGround(g->s, g->body[ci.b2].findStationAtGroundPoint(g->s, cp));
+        Vec3 vBA = vB - vA; Vec3 vtv = vBA - dot(vBA, ci.nG) * ci.nG;
+        auto comb2 = [](double a, double b) { double u = 2 * a * b; return u != 0 ? u / (a + b) : u; };
+        double us = comb2(ci.m1.us, ci.m2.us), uv = comb2(ci.m1.uv, ci.m2.uv);
+        vh::P("pure_force", "CompliantContactSubsystem.Hertz.no_moment", cf.getForceOnSurface2()[0].norm(), 0);
+        contactPredicates("CompliantContactSubsystem.Hertz", ci.nG, cf.getForceOnSurface2()[1], vBA, us + uv * vtv.norm(), false);
+        vh::P("dissipation_nonnegative", "CompliantContactSubsystem.Hertz.power_loss_nonneg", -cf.getPowerDissipation(), 0);
+    }
+}
+
+
+// ---------------------------------------------------------------- ElasticFoundationForce (per-triangle law)
+// mesh sphere on body 1; the other object is a half space on Ground or an analytic sphere on body 2.  The inside
+// springs (centroid, area, nearest surface point) are re-derived here through the public geometry API (their
+// correctness is C34-C36's subject) and exported; the model applies the per-spring law and sums.
+static void elemEF(Src& c) {
+    double vt = c.val(c.replay ? 0 : (c.rng->coin() ? 0.01 : c.rng->range(0.005, 0.3)));
+    double radius = c.real(0.3, 1.0);
+    int res = c.ival(c.replay ? 0 : 1 + c.rng->below(2));
+    Mat5 m = drawMat(c); if (!c.replay) { /* stiffness per area */ }
+    int otherKind = c.ival(c.replay ? 0 : c.rng->below(2));      // 0 half space on Ground, 1 sphere on body 2
+    double r2 = c.real(0.3, 1.0);
+    Transform Xhalf; 
+    if (c.replay) Xhalf = getPose(c); else { Xhalf = Transform(randRot(*c.rng), randVec(*c.rng, 1)); putPose(c.rec, Xhalf); }
+    Transform XBS1, XBS2;
+    if (c.replay) { XBS1 = getPose(c); XBS2 = getPose(c); }
+    else { XBS1 = Transform(randRot(*c.rng), randVec(*c.rng, 0.3)); XBS2 = Transform(randRot(*c.rng), randVec(*c.rng, 0.3)); putPose(c.rec, XBS1); putPose(c.rec, XBS2); }
+    std::vector<Transform> X(3); std::vector<SpatialVec> V(3, SpatialVec(Vec3(0), Vec3(0)));
+    if (c.replay) for (int b = 0; b <= 2; ++b) { X[b] = getPose(c); V[b] = getVel(c); }
+    else {
+        vh::Rng& r = *c.rng;
+        double depth = r.range(0.12, 0.5) * radius;
+        Rotation R1 = randRot(r), R2 = randRot(r);
+        Vec3 c1;
+        if (otherKind == 0) {
+            Vec3 nOut = -(Xhalf.R() * Vec3(1, 0, 0));
+            c1 = Xhalf.p() + (radius - depth) * nOut + r.range(-1, 1) * (Xhalf.R() * Vec3(0, 1, 0));
+            X[2] = Transform(R2, Vec3(50, 60, 70));
+        } else {
+            Vec3 c2 = randVec(r, 1); UnitVec3 dir(randVec(r, 1) + Vec3(0.01, 0.02, 0.03));
+            c1 = c2 + (radius + r2 - depth) * Vec3(dir);
+            X[2] = Transform(R2, c2 - R2 * XBS2.p());
+        }
+        X[1] = Transform(R1, c1 - R1 * XBS1.p());
+        for (int b = 1; b <= 2; ++b) V[b] = SpatialVec(randVec(r, 1.5), randVec(r, 0.8));
+        if (r.below(4) == 0) V[1] = SpatialVec(randVec(r, 0.01), randVec(r, 0.003));
+        for (int b = 0; b <= 2; ++b) { putPose(c.rec, X[b]); putVel(c.rec, V[b]); }
+    }
+    std::unique_ptr<Rig> g(new Rig()); vh::Rng local(10); g->freeBodies(local, 2);
+    GeneralContactSubsystem contacts(g->sys); ContactSetIndex set = contacts.createContactSet();
+    ElasticFoundationForce ef(g->forces, contacts, set); ef.setTransitionVelocity(vt);
+    ContactGeometry::TriangleMesh mesh(PolygonalMesh::createSphereMesh(radius, res));
+    contacts.addBody(set, g->body[1], mesh, XBS1);                      // surface 0
+    ContactGeometry other = otherKind == 0 ? (ContactGeometry)ContactGeometry::HalfSpace() : (ContactGeometry)ContactGeometry::Sphere(r2);
+    int bOther = otherKind == 0 ? 0 : 2;
+    Transform XBo = otherKind == 0 ? Xhalf : XBS2;
+    contacts.addBody(set, g->body[bOther], other, XBo);                 // surface 1
+    ef.setBodyParameters(ContactSurfaceIndex(0), m.k, m.c, m.us, m.ud, m.uv);
+    g->topo(); g->fit(X, V);
+    g->sys.realize(g->s, Stage::Dynamics);
+    Contribution k = contrib(*g, ef, g->s);
+    // re-derive the displaced springs
+    std::ostringstream sp; int ns = 0;
+    const Array_<Contact>& cs = contacts.getContacts(g->s, set);
+    Transform t1g = g->body[1].getBodyTransform(g->s) * XBS1, t2g = g->body[bOther].getBodyTransform(g->s) * XBo;
+    Transform t12 = ~t2g * t1g;
+    for (int i = 0; i < (int)cs.size(); ++i) {
+        if (!TriangleMeshContact::isInstance(cs[i])) continue;
+        const TriangleMeshContact& tc = TriangleMeshContact::getAs(cs[i]);
+        const std::set<int>& faces = (tc.getSurface1() == 0) ? tc.getSurface1Faces() : tc.getSurface2Faces();
+        for (int face : faces) {
+            Vec3 pos = (mesh.getVertexPosition(mesh.getFaceVertex(face, 0)) + mesh.getVertexPosition(mesh.getFaceVertex(face, 1)) + mesh.getVertexPosition(mesh.getFaceVertex(face, 2))) / 3;
+            bool inside; UnitVec3 nrm;
+            Vec3 np = other.findNearestPoint(t12 * pos, inside, nrm);
+            if (!inside) continue;
+            sp << ' ' << hex(mesh.getFaceArea(face)); putVec(sp, t2g * np); putVec(sp, t1g * pos); ++ns;
+        }
+    }
+    if (c.replay) std::puts(gOrig.c_str());
+    else {
+        std::string sceneStr = c.rec.str();
+        int ntok = 0; { std::istringstream is(sceneStr); std::string t; while (is >> t) ++ntok; }
+        std::ostringstream os; os << "I ef " << ntok << sceneStr << ' ' << hex(vt); putMat(os, m);
+        os << ' ' << bOther;
+        putPose(os, g->body[1].getBodyTransform(g->s)); putVel(os, g->body[1].getBodyVelocity(g->s));
+        putPose(os, g->body[bOther].getBodyTransform(g->s)); putVel(os, g->body[bOther].getBodyVelocity(g->s));
+        os << ' ' << ns << sp.str();
+        std::puts(os.str().c_str());
+    }
+    vh::Line L = vh::O("ef"); outSpatial(L, k.F[1]); outSpatial(L, k.F[bOther]); L.d(k.pe); L.emit();
+    vh::D(std::string("ef.") + (otherKind == 0 ? "halfspace" : "sphere") + (ns == 0 ? ".nosprings" : ns < 5 ? ".few" : ".many"));
+    if (wantC13()) thirdLaw("ElasticFoundationForce", *g, g->s, k.F);
+    if (wantC12()) c12Lines("ElasticFoundationForce", *g, ef, g->s, k, true, m.c != 0 || m.us != 0 || m.ud != 0 || m.uv != 0, false, k.F[1][1].norm() * 3 + std::abs(k.pe));
+}
+
+static bool runContact(const std::string& fn, Src& c, bool degenerate) {
+    if (fn == "hc") { elemHC(c, 0); return true; }
+    if (fn == "smooth") { elemSmooth(c, 0); return true; }
+    if (fn == "expn") { elemExp(c); return true; }
+    if (fn == "hertz") { elemHertz(c, 0); return true; }
+    if (fn == "ef") { elemEF(c); return true; }
+    (void)degenerate;
+    return false;
+}
+static bool runContactMode(const std::string& mode, long i, Src& c) {
+    if (mode == "c37") {
+        switch (i % 9) {
+            case 8: elemEF(c); break;
+            case 0: case 1: elemHC(c, 0); break;
+            case 2: elemHC(c, 2); break;
+            case 3: elemSmooth(c, 0); break;
+            case 4: elemExp(c); break;
+            case 5: case 6: elemHertz(c, 0); break;
+            default: elemHertz(c, 2); break;
+        }
+        return true;
+    }
+    if (mode == "c37multi") { elemHC(c, 1); return true; }
+    if (mode == "c37deg") { elemSmooth(c, 1 + (int)(i % 2)); return true; }
+    if (mode == "c13contact" || mode == "c12contact") {
+        std::string keep = MODE; MODE = (mode == "c13contact") ? "c13" : "c12";
+        switch (i % 4) { case 0: elemHC(c, 0); break; case 1: if (MODE == "c13") elemSmooth(c, 0); else elemHC(c, 0); break;
+                         case 2: if (MODE == "c13") elemExp(c); else elemHC(c, 0); break; default: if (MODE == "c13") elemHertz(c, 0); else elemHC(c, 0); break; }
+        MODE = keep; return true;
+    }
+    return false;
+}
 // CONTACT-END
 // PARAM-BEGIN
 // ================================================================================================ parameter changes
